@@ -11,6 +11,8 @@ H1  back-end wiring.  The real PtTebdBackend / PtTebd run on symbolic tensors:
     H1/step_* real PtTebd.compute with generic two-site gates == direct application of
               the gates / process tensors to the joint state; reduced states of site
               subsets consistent under partial trace; norm == total trace.
+    H1/generator the two-site Liouvillians handed to compute_nn_gate by the real
+              SystemChain / compute_tebd_propagator sum to the chain generator.
     H1/norm_one trace-preserving gates (by construction), unit-trace product state:
               norm == 1, every reduced state has unit trace.
 H2  completion order within a layer: executors replaced by the Executor.map contract
@@ -425,6 +427,80 @@ class NormOne(Case):
         return obs
 
 
+class Generator(Case):
+    """the two-site generators handed to compute_nn_gate by the real
+    SystemChain.get_nn_full_liouvillians / compute_tebd_propagator add up to the chain
+    generator: every site Liouvillian enters with total weight 1 (how a bulk site is split
+    between its two bonds is free), every coupling once.  Only compute_nn_gate (expm + SVD)
+    is replaced, by a recorder of the Liouvillian it is given."""
+    functions = ("SystemChain.__init__", "add_site_liouvillian", "add_nn_liouvillian", "get_nn_full_liouvillians",
+                 "mps_mpo.compute_tebd_propagator", "compute_trotter_layers")
+    stubs = ("mps_mpo.compute_nn_gate (scipy expm + SVD) -> records (liouvillian, site, dims, dt), returns a dummy gate",)
+    env = {"noconj": True}
+
+    def __init__(self, n, order):
+        self.n, self.order = n, order
+        self.id = "H1/generator/n%d_o%d" % (n, order)
+        self.bounds = {"d": 2, "sites": n, "order": order}
+
+    def run(self, inp):
+        from oqupy.mps_mpo import compute_tebd_propagator
+        n = self.n
+        chain = oqupy.SystemChain([2] * n)
+        Ls = [inp.arr("L%d" % s, (4, 4)) for s in range(n)]
+        Ns = [inp.arr("N%d" % k, (16, 16)) for k in range(n - 1)]
+        for s in range(n):
+            chain.add_site_liouvillian(s, Ls[s])
+        for k in range(n - 1):
+            chain.add_nn_liouvillian(k, Ns[k])
+        rec = []
+
+        def compute_nn_gate(liouvillian, site, hs_dim_l, hs_dim_r, dt, epsrel):
+            rec.append((np.array(liouvillian), site, hs_dim_l, hs_dim_r, dt))
+            return NnGate(site=site, tensors=(np.zeros((4, 4, 1)), np.zeros((1, 4, 4))))
+        with env.patched({"oqupy.mps_mpo.compute_nn_gate": compute_nn_gate}):
+            prop = compute_tebd_propagator(chain, 0.05, EPS, self.order)
+        want_dt = 0.05 if self.order == 1 else 0.025
+        obs = [Ob.holds("one request per bond, documented time step",
+                        [r[1] for r in rec] == list(range(n - 1)) and all(abs(r[4] - want_dt) < 1e-15 and r[2] == r[3] == 2 for r in rec)),
+               Ob.holds("layer sequence", [[g.sites[0] for g in l.gates] for l in prop.gate_layers] == _layer_bonds(n, self.order))]
+
+        def embed(M, first, nsites):
+            """M acts on sites first..first+nsites-1 of the chain (Liouville space 4^n)"""
+            out = M
+            if first > 0:
+                out = _kron(inp.const(np.identity(4 ** first)), out)
+            rest = n - first - nsites
+            if rest > 0:
+                out = _kron(out, inp.const(np.identity(4 ** rest)))
+            return out
+        total = None
+        for r in rec:
+            e = embed(r[0], r[1], 2)
+            total = e if total is None else total + e
+        want = None
+        for s in range(n):
+            e = embed(Ls[s], s, 1)
+            want = e if want is None else want + e
+        for k in range(n - 1):
+            want = want + embed(Ns[k], k, 2)
+        obs.append(Ob.eq("sum of the two-site generators == chain generator", total, want))
+        return obs
+
+
+def _kron(a, b):
+    """Kronecker product for object / complex arrays (explicit, zero blocks skipped)"""
+    ra, ca = a.shape
+    rb, cb = b.shape
+    if a.dtype != object and b.dtype != object:
+        return np.kron(a, b)
+    out = np.empty((ra * rb, ca * cb), dtype=object)
+    for i in range(ra):
+        for j in range(ca):
+            out[i * rb:(i + 1) * rb, j * cb:(j + 1) * cb] = tebd.scale(b, a[i, j])
+    return out
+
+
 class Order(Case):
     """H2: apply_nn_gate_layer, parallel branch under the Executor.map contract with a
     solver-chosen run order == sequential branch"""
@@ -613,12 +689,13 @@ def cases(tier):
     cs += [Step(2, 1, 1, 2, "dense", 1), Step(2, 2, 1, 2, "sparse", 1), Step(3, 1, 1, 2, "sparse", 1, nopt=(0,)),
            Step(2, 1, 2, 2, "sparse", 2, ptrank=3), Step(3, 2, 1, 2, "perm", 1)]
     cs += [NormOne(2, 1, 1, "dense"), NormOne(3, 2, 1, "perm")]
+    cs += [Generator(2, 1), Generator(3, 2)]
     cs += [Order(4, "multithread", 1, 2), Order(4, "multiprocess", 1, 1), OrderRun(4, 1, "multithread")]
     cs += [Fresh()]
     if tier == "thorough":
         cs += [OpNn(4, 1, 2, (1, 2, 2, 1), 2), OpNn(4, 2, 2, (2, 1, 1, 2), 1, twice=True), OpNn(3, 1, 2, (2, 2, 2), 2, twice=True),
                OpSitePt(4, 2, (1, 2, 1, 1), 3), OpTraces(4, 2, (1, 2, 2, 1)),
-               NormOne(3, 1, 2, "perm"), NormOne(4, 2, 1, "perm")]
+               NormOne(3, 1, 2, "perm"), NormOne(4, 2, 1, "perm"), Generator(2, 2), Generator(4, 1)]
         cs += [ProdStep(3, 1, 2, "sparse", 2), ProdStep(3, 2, 1, "sparse", 1), ProdStep(4, 1, 2, "perm", 2), ProdStep(3, 2, 2, "perm", 2)]
         cs += [Step(4, 1, 1, 2, "perm", 1), Step(4, 2, 1, 2, "perm", 1), Step(3, 1, 2, 2, "perm", 2, ptrank=3)]
         cs += [Order(4, "multithread", 2, 2), Order(6, "multiprocess", 1, 1), OrderRun(4, 2, "multiprocess", "perm"), OrderRun(5, 1, "multithread", "perm")]
